@@ -14,7 +14,8 @@ Inductive bkind :=
 | BStack (size : N)          (* mem::Stack<SIZE> *)
 | BStackN (n size : N)       (* mem::StackN<N, SIZE> *)
 | BEmpty                     (* mem::Empty *)
-| BReloc.                    (* the harness's user-defined backend: every capacity
+| BReloc (c0 : N).           (* the harness's user-defined backend: fresh storage already holds
+                                [c0] elements (small-buffer / pooled backends); every capacity
                                 change moves the storage; grows by exactly what is asked *)
 
 (** [vmem] has [vcap * sz] cells on Heap/Reloc and [SIZE] cells on the stack backends.
@@ -111,7 +112,7 @@ Definition mem_resize (c : cfg) (new_size : N) : M st unit :=
   do v <- getv;
   match vbk v with
   | BHeap => heap_resize c new_size
-  | BReloc => emitv (EResize new_size);; reloc_resize c new_size
+  | BReloc _ => emitv (EResize new_size);; reloc_resize c new_size
   | _ => fault_ FBackend      (* not MemResizable: the call does not type-check *)
   end.
 
@@ -122,7 +123,7 @@ Definition mem_expand (c : cfg) (additional : N) : M st unit :=
   | BHeap =>
       do requested <- of_ovf (checked_add (vcap v) additional);
       heap_resize c (N.max (saturating_mul (vcap v) 2) requested)
-  | BReloc =>
+  | BReloc _ =>
       emitv (EExpand additional);;
       do requested <- of_ovf (checked_add (vcap v) additional);
       reloc_resize c requested
@@ -158,9 +159,9 @@ Definition mem_build (c : cfg) (bk : bkind) : M st unit :=
                           vgen := 0; vbk := bk |})
       else raise PStackN
   | BEmpty => setv (fun _ => {| vlen := 0; vcap := 0; vmem := []; vgen := 0; vbk := BEmpty |})
-  | BReloc =>
+  | BReloc c0 =>
       emitv (EBuild (c_sz c) (c_al c));;
-      setv (fun _ => {| vlen := 0; vcap := 0; vmem := []; vgen := 0; vbk := BReloc |})
+      setv (fun _ => {| vlen := 0; vcap := c0; vmem := uninit (N.to_nat (c_sz c * c0)); vgen := 0; vbk := bk |})
   end.
 
 (** Dropping the [Mem] object (after the elements): Heap = [resize(0)]. *)
@@ -168,7 +169,7 @@ Definition mem_drop (c : cfg) : M st unit :=
   do v <- getv;
   match vbk v with
   | BHeap => heap_resize c 0
-  | BReloc => emitv EMemDrop
+  | BReloc _ => emitv EMemDrop
   | _ => ret tt
   end.
 
